@@ -128,6 +128,26 @@ def null_forms(kind):
     return forms, comps
 
 
+def null_first_forms(kind):
+    """'null or kind' with null named FIRST: the 3.1 type list [null, T] and the explicit union [null-member, T-member]."""
+    comps = {}
+    inner = copy.deepcopy(ANNOTATED[kind]) if isinstance(kind, str) and kind in ANNOTATED else K.schema(kind, comps)
+    if "$ref" in inner or not isinstance(inner.get("type"), str):
+        return None, comps
+    return {"t31-null-first": dict(copy.deepcopy(inner), type=["null", inner["type"]]),
+            "oneof-null-first": {"oneOf": [{"type": "null"}, copy.deepcopy(inner)]}}, comps
+
+
+INLINE_ENUMS = {"enum_str_inline": {"type": "string", "enum": ["a", "b"]}, "enum_int_inline": {"type": "integer", "enum": [1, 2]},
+                "enum_str_inline_default": {"type": "string", "enum": ["a", "b"], "default": "b"}}
+
+
+def inline_enum_forms(name):
+    """A nullable inline enum that does NOT list null: 3.0 nullable vs the 3.1 type list (whatever they mean, they mean the same)."""
+    inner = INLINE_ENUMS[name]
+    return {"t30": dict(copy.deepcopy(inner), nullable=True), "t31": dict(copy.deepcopy(inner), type=[inner["type"], "null"])}
+
+
 def enum_null_forms(values, typ):
     base = {"type": typ, "enum": list(values)}
     return {    # the explicit union is the reference spelling: every other notation is compared with it
@@ -188,6 +208,18 @@ def cases(tier):
             if pos.endswith("-param") and K.kstr(kind) in ("model_ref", "inline_object", "array(model_ref)", "annotated_object"):
                 continue
             yield {"labels": ["rewrite=nullable", f"kind={K.kstr(kind)}", f"pos={pos}"], "payload": {"mode": "nullable", "kind": kind, "pos": pos, "required": False}}
+    for kind in NULL_KINDS:
+        if null_first_forms(kind)[0] is None:
+            continue
+        for pos in POS:
+            if pos == "param" and kind == "annotated_object":
+                continue
+            yield {"labels": ["rewrite=nullable-null-first", f"kind={K.kstr(kind)}", f"pos={pos}"], "payload": {"mode": "nullable-first", "kind": kind, "pos": pos}}
+    for name in INLINE_ENUMS:
+        for pos in POS + SHARED_POS:
+            for lit in (False, True):
+                yield {"labels": ["rewrite=nullable", f"kind={name}", f"pos={pos}"] + (["literal_enums"] if lit else []),
+                       "payload": {"mode": "nullable-inline-enum", "name": name, "pos": pos, "literal_enums": lit}}
     for name in COMPOSITES:
         for pos in POS + ["comp-resp", "comp-body"]:
             if pos == "param":
@@ -319,6 +351,16 @@ def run_case(p):
         for n, sch in forms.items():
             variants[n] = gen.generate(holder(p["pos"], sch, copy.deepcopy(comps), p["required"]))
         key = f"nullable/{K.kstr(p['kind'])}/{p['pos']}"
+    elif mode == "nullable-first":
+        forms, comps = null_first_forms(p["kind"])
+        for n, sch in forms.items():
+            variants[n] = gen.generate(holder(p["pos"], sch, copy.deepcopy(comps)))
+        key = f"nullable-null-first/{K.kstr(p['kind'])}/{p['pos']}"
+    elif mode == "nullable-inline-enum":
+        opts = {"literal_enums": p["literal_enums"]}
+        for n, sch in inline_enum_forms(p["name"]).items():
+            variants[n] = gen.generate(holder(p["pos"], sch, {}), **opts)
+        key = f"nullable/{p['name']}/{p['pos']}" + ("/literal" if p["literal_enums"] else "")
     elif mode == "nullable-composite":
         for n, sch in composite_forms(p["name"]).items():
             variants[n] = gen.generate(holder(p["pos"], sch, copy.deepcopy(COMPOSITE_COMPS)))
